@@ -68,6 +68,13 @@ def replay_case(lib, tid, case):
             h.setfn(o['p'], o['name'], o['x'])
     for p, ast in case['probes']:
         h.parse(p, ast)
+    if case.get('blankvar', True):
+        h.setvar('p2', 'vnone', {'t': 'blank'})
+        h.setfn('p2', 'triple', {'mode': 'arg', 'v': {'t': 'blank'}, 'i': 1})
+        for a in (F.var('vnone'), F.call('ISBLANK', F.var('vnone')), F.binop('+', F.var('vnone'), F.num('1')),
+                  F.call('triple', F.num('5')), F.call('TRIPLE', F.num('5')), F.call('Triple', F.num('5'))):
+            h.parse('p2', a)
+            h.parse('p1', a)
     return h.trace()
 
 
@@ -81,6 +88,9 @@ def all_probes():
             for a in contexts(F.call(f, F.num('2'))):
                 out.append((p, a))
             out.append((p, F.call(f, F.num('2'), F.num('3'))))
+        for f in ('sum', 'Sum', 'fa', 'abs'):       # other spellings of registered / built-in names are other names
+            out.append((p, F.call(f, F.num('2'))))
+        out.append((p, F.call('ISBLANK', F.var('NULL'))))
     return out
 
 
@@ -96,7 +106,9 @@ def rand_name(rng):
 
 
 def rand_value(rng, i):
-    k = rng.randrange(8)
+    k = rng.randrange(9)
+    if k == 8:
+        return {'t': 'blank'}          # a variable may be set to None: it is then a blank, not an unknown name
     if k == 0:
         return enc(rng.randint(-1000, 1000))
     if k == 1:
@@ -115,7 +127,8 @@ def rand_value(rng, i):
 def random_case(rng, i):
     hist = []
     names = [rand_name(rng) for _ in range(3)]
-    fns = [rand_name(rng).upper() + rng.choice(['', '.X', '_F']) for _ in range(2)] + ['SUM', 'ABS', 'IF']
+    fns = [rand_name(rng).upper() + rng.choice(['', '.X', '_F']) for _ in range(2)] + ['SUM', 'ABS', 'IF'] + \
+          [rng.choice(['triple', 'Net_Price', 'my.fn', 'sum', 'Abs', 'iF'])]      # names are case-sensitive
     for _ in range(rng.randint(1, 8)):
         p = rng.choice(['p1', 'p2', 'p3'])
         if rng.random() < 0.6:
